@@ -149,6 +149,8 @@ pub struct MemSource {
     /// only the view owned by the harness/cache holds the sender slot
     sender: Option<Arc<Mutex<Option<EventSender>>>>,
     hot: bool,
+    /// `configure_hot_reloading` keeps the sender it is given but reports an error
+    fail_configure: bool,
 }
 
 fn lock<T>(m: &Mutex<T>) -> std::sync::MutexGuard<'_, T> {
@@ -187,7 +189,16 @@ impl MemSource {
             }),
             sender: Some(Arc::new(Mutex::new(None))),
             hot,
+            fail_configure: false,
         }
+    }
+
+    /// A source that offers hot-reloading (`make_source` is `Some`) but fails to configure it, after
+    /// having stored the `EventSender` (a backend step that fails late): the cache has no reloader.
+    pub fn new_failing_configure() -> MemSource {
+        let mut s = MemSource::new(true);
+        s.fail_configure = true;
+        s
     }
 
     pub fn tag(&self) -> u32 {
@@ -200,6 +211,7 @@ impl MemSource {
             shared: self.shared.clone(),
             sender: self.sender.clone(),
             hot: self.hot,
+            fail_configure: self.fail_configure,
         }
     }
 
@@ -356,6 +368,7 @@ impl Source for MemSource {
             shared: self.shared.clone(),
             sender: None,
             hot: false,
+            fail_configure: false,
         }))
     }
 
@@ -363,6 +376,9 @@ impl Source for MemSource {
         match &self.sender {
             Some(s) => {
                 *lock(s) = Some(events);
+                if self.fail_configure {
+                    return Err("the watcher backend could not be started".into());
+                }
                 Ok(())
             }
             None => Err("no sender slot".into()),
